@@ -21,12 +21,6 @@ func (h *hist) nonMembers(noPending bool) []int {
 		if _, pj := h.pendJoin[a]; pj && noPending {
 			continue
 		}
-		// noPending lists are the targets of direct AccountsAdd: keep former tree authors out of them, because
-		// re-adding one by AccountsAdd resets its permission history and its old changes stop validating
-		// (DESIGN.md section 5, F-acl-readd; a C01/C02 matter that would only blur the C05 tree oracle)
-		if noPending && h.wrote[a] {
-			continue
-		}
 		res = append(res, a)
 	}
 	return res
@@ -158,7 +152,7 @@ func (h *hist) candidates() []cand {
 			perms = append(perms, h.somePerm(mgr))
 		}
 		var appr []int
-		if len(pend) > 0 && h.r.Chance(60) {
+		if len(pend) > 0 && h.r.Chance(85) {
 			appr = []int{h.pick(pend)}
 			var add2 []int
 			var perms2 []list.AclPermissions
@@ -183,7 +177,12 @@ func (h *hist) candidates() []cand {
 			rev = []*invite{all[h.r.Intn(len(all))]}
 		}
 		rm2 := h.subset(rm, 2)
-		cs = append(cs, cand{3, "batch-remove", func() (*pendingOp, error) { return h.opBatch(mgr, rm2, add, perms, appr, ninv, rev) }})
+		bw, bkind := 3, "batch-remove"
+		if len(appr) > 0 {
+			// the approval inside a removal batch must carry the NEW key (the batch rotates first): keep it frequent
+			bw, bkind = 7, "batch-remove-approve"
+		}
+		cs = append(cs, cand{bw, bkind, func() (*pendingOp, error) { return h.opBatch(mgr, rm2, add, perms, appr, ninv, rev) }})
 	}
 	var leavers []int
 	for a, p := range h.perm {
